@@ -603,3 +603,30 @@ def check(case, ctx):
         _check_antenna(case, ctx)
     else:
         _check_pathloss(case, ctx)
+
+
+# ----------------------------------------------------------------------------
+# every direct library call made by this check must leave the arrays handed
+# to it unchanged (core.GuardedCalls)
+# ----------------------------------------------------------------------------
+def _guard_targets():
+    from pyphysim.channels import antennagain, pathloss
+    t = []
+    for name in ("PathLossBase", "PathLossIndoorBase", "PathLossOutdoorBase",
+                 "PathLossGeneral", "PathLossFreeSpace", "PathLoss3GPP1",
+                 "PathLossMetisPS7", "PathLossOkomuraHata"):
+        cls = getattr(pathloss, name, None)
+        if cls is not None:
+            t += [(cls, n) for n in ("calc_path_loss", "calc_path_loss_dB",
+                                     "which_distance", "which_distance_dB")]
+    t += [(antennagain.AntGainBS3GPP25996, "get_antenna_gain")]
+    return t
+
+
+_unguarded_check = check
+
+
+def check(case, ctx):  # noqa: F811
+    from ..core import GuardedCalls
+    with GuardedCalls(_guard_targets(), dict(part=case.get("part"))):
+        return _unguarded_check(case, ctx)
